@@ -154,12 +154,12 @@ def impl(case):
         nf = G.normal_forms(strings)
         oracle = []
         # closure: the normal forms themselves must be fixed points of parse-then-encode
-        more = sorted({n for t in nf.values() for n in t.values() if n is not None} - set(strings))
+        more = sorted({n for t in nf.values() for n in t.values() if isinstance(n, str)} - set(strings))
         nf2 = G.normal_forms(more)
         for k in G.OPAQUE:
             nf[k].update(nf2[k])
             for s, n in list(nf[k].items()):
-                if n is not None and nf[k].get(n, n) != n:
+                if isinstance(n, str) and nf[k].get(n, n) != n:
                     oracle.append(dict(kind="normal-form-not-fixed", type=k, input=s, once=n, twice=nf[k].get(n), error=G.NF_ERRORS.get((k, n), "")))
         return dict(out=None, oracle=oracle, tags=["nf-table"], nf=nf)
     from pydantic import ValidationError
@@ -323,7 +323,7 @@ def lines(case):
     for k in G.OPAQUE:
         for s in strs:
             n = NF.get(k, {}).get(s)
-            if n is not None:
+            if isinstance(n, str):
                 closure.add(n)
     L = G.nf_lines(NF, closure)
     for cd in fam:
@@ -441,6 +441,29 @@ def load_nf(ctx):
     for d in r["ok"]["oracle"]:
         ctx.oracle_hit(dict(kind="nf"), d, group="normal-forms")
     ctx.note_case(dict(kind="nf"), ["nf-table"])
+
+
+def ensure_nf(ctx, cases, report=True):
+    """Normal forms of every string occurring in the cases (beyond the pools)."""
+    strs = set()
+    for c in cases:
+        G.strings_in(c.get("inputs", []), strs)
+        G.strings_in(c.get("values", []), strs)
+        for cd in c.get("fam", []):
+            for f in cd["fields"]:
+                if f[2] is not None:
+                    G.strings_in(f[2]["v"], strs)
+    missing = sorted(x for x in strs if x not in NF.get("dur", {}) and G.model_safe_json(x))
+    if not missing:
+        return
+    r = pool.run_one(MOD, "impl", dict(kind="nf", strings=missing), timeout=600)
+    if "ok" not in r:
+        raise lean.InfraError("normal-form table: %s" % (r,))
+    for k in G.OPAQUE:
+        NF.setdefault(k, {}).update(r["ok"]["nf"][k])
+    if report:
+        for d in r["ok"]["oracle"]:
+            ctx.oracle_hit(dict(kind="nf"), d, group="normal-forms")
 
 
 def run(ctx):
